@@ -1,9 +1,10 @@
 (* Proofs/LexAlgSrc2.v — part 2 of Proofs/LexAlgSrc.v: the hand model Model/Lex.v is the translated source (Gen/LexAlgTables.v) for
 
        rounding.rs   round_nearest  tie_even  round_nearest_tie_even  round_toward  downard  round_downward
-                     round_to_float  avoid_overflow  round_to_native
-       float.rs      ExtendedFloat::{normalize, mul, imul, round_to_native, into_float, into_downward_float}  into_float
+       float.rs      ExtendedFloat::{normalize, mul, imul}
 
+   mul: the checked u64 operations of the 32-bit-halves product never overflow (the last sum by Proofs/LexExt.ef_mul_round);
+   its debug_assert (both mantissas have a bit in the upper half) is a hypothesis.
    See the header of Proofs/LexAlgSrc.v for the shape of the statements. *)
 From Coq Require Import String ZArith NArith List Bool Lia ZifyBool ZifyNat ZifyN.
 From SJ Require Import Base.Bytes Base.FloatB Gen.LexTables Model.Num Model.Lex Model.LexAlgAst Gen.LexAlgTables Model.LexAlgEnv.
@@ -156,6 +157,15 @@ Proof. intros Ha Hb. unfold two64N. nia. Qed.
 Lemma mul32N' a b : (a < 4294967296)%N -> (b < 4294967296)%N -> (a * b <= 18446744065119617025)%N.
 Proof. intros Ha Hb. nia. Qed.
 
+Lemma ef_mul_fits a b : (mant a < two64N)%N -> (mant b < two64N)%N -> (mant (ef_mul a b) < two64N)%N.
+Proof.
+  intros Ha Hb. pose proof (ef_mul_round a b Ha Hb) as H. cbv zeta in H. destruct H as [_ [_ H]].
+  generalize dependent (mant (ef_mul a b)). intros M H. unfold two64N in *.
+  change (2 ^ 64) with 18446744073709551616 in H. change (2 ^ 63) with 9223372036854775808 in H.
+  assert (Hab : Z.of_N (mant a) * Z.of_N (mant b) <= 18446744073709551615 * 18446744073709551615) by nia.
+  lia.
+Qed.
+
 Theorem mul_src : forall a b f, ef_ok a -> ef_ok b -> (two32N <= mant a)%N -> (two32N <= mant b)%N ->
   i32_ok (exp a + exp b) -> i32_ok (exp a + exp b + 64) -> (2 <= f)%nat ->
   call f G "ExtendedFloat::mul" [ef_val a; ef_val b] = Ok (ef_val (ef_mul a b), []).
@@ -197,15 +207,38 @@ Proof.
   pose proof (div32_lt ah_bl Hp1) as Hd1. pose proof (div32_lt al_bh Hp2) as Hd2. unfold two32N in Hd1, Hd2 |- *.
   rewrite checked_ok by (apply in_range_u64; unfold two64N in *; lia). cbn. rewrite <- N2Z.inj_add.
   rewrite checked_ok by (apply in_range_u64; unfold two64N in *; lia). cbn. rewrite <- N2Z.inj_add.
-  change 18446744073709551616%N with two64N in *.
-  change 4294967296%N with two32N in *.
   rewrite <- N2Z.inj_add.
-  rewrite checked_ok.
-  2:{ apply in_range_u64. split; [lia|].
-      pose proof (ef_mul_round (mkEF ma ea) (mkEF mb eb) Hma Hmb) as [_ Hround].
-      unfold ef_mul in Hround. cbn [mant exp] in Hround. rewrite <- Eah, <- Eal, <- Ebh, <- Ebl, <- E1, <- E2, <- E3, <- E4 in Hround.
-      assert (Z.of_N ma * Z.of_N mb <= (2 ^ 64 - 1) * (2 ^ 64 - 1)) by (unfold two64N in *; nia).
-      change (2 ^ 64) with 18446744073709551616 in *. change (2 ^ 63) with 9223372036854775808 in *. lia. }
+  pose proof (ef_mul_fits (mkEF ma ea) (mkEF mb eb) Hma Hmb) as Hfit. unfold ef_mul in Hfit. cbn [mant exp] in Hfit.
+  unfold two32N in Hfit. rewrite <- Eah, <- Eal, <- Ebh, <- Ebl, <- E1, <- E2, <- E3, <- E4 in Hfit.
+  rewrite checked_ok by (apply in_range_N; exact Hfit).
   cbn. rewrite checked_ok by inr. cbn. rewrite checked_ok by inr. cbn. reflexivity.
 Qed.
 End Float1.
+
+Section Float2.
+Variable G : genv.
+
+Theorem imul_src : forall a b f, ef_ok a -> ef_ok b -> (two32N <= mant a)%N -> (two32N <= mant b)%N ->
+  i32_ok (exp a + exp b) -> i32_ok (exp a + exp b + 64) -> (4 <= f)%nat ->
+  call f G "ExtendedFloat::imul" [ef_val a; ef_val b] = Ok (VUnit, [ef_val (ef_mul a b)]).
+Proof.
+  intros a b f Ha Hb Ha32 Hb32 Hx1 Hx2 Hf. do 2 fuel1. enter LA_ExtendedFloat_imul. step.
+  pcall LA_ExtendedFloat_mul. rewrite mul_src by (assumption || lia). cbn. step. reflexivity.
+Qed.
+
+(* the debug_assert of mul: both mantissas must have a bit in the upper half *)
+Example mul_needs_high_bits : run 10 G P "ExtendedFloat::mul" [VEF 1 0; VEF 9223372036854775808 0] = Panic
+                              /\ ef_mul (mkEF 1 0) (mkEF 9223372036854775808 0) = mkEF 1 64.
+Proof. split; reflexivity. Qed.
+End Float2.
+
+
+Print Assumptions round_nearest_src.
+Print Assumptions tie_even_src.
+Print Assumptions round_nearest_tie_even_src.
+Print Assumptions round_toward_src.
+Print Assumptions downard_src.
+Print Assumptions round_downward_src.
+Print Assumptions normalize_src.
+Print Assumptions mul_src.
+Print Assumptions imul_src.
